@@ -1,5 +1,7 @@
 #!/bin/sh
-# usage: harness/seedtest.sh <PID> <seed-name> <prop> [prop...]   (verifies a sub-agent's seed and runs the given checks against it)
+# usage: harness/seedtest.sh <PID> <seed-name> <prop> [prop...]
+# Verifies a sub-agent's seed (demo fails with / passes without the change), stores it under seeded/<seed-name>,
+# then runs the given checks against a SCRATCH COPY of /repo with the patch applied (/repo itself is not touched).
 PID=$1; NAME=$2; shift 2
 W=/tmp/mut/$PID
 if [ -d "$W/_seed" ]; then
@@ -8,10 +10,12 @@ if [ -d "$W/_seed" ]; then
   git apply -R _seed/patch.diff && PYTHONPATH=$W /venv/bin/python _seed/demo.py >/dev/null 2>&1; echo "demo without change: exit $?"
   git apply _seed/patch.diff
   mkdir -p /verif/seeded/$NAME && cp _seed/patch.diff _seed/demo.py _seed/meta.json /verif/seeded/$NAME/
+  git -C /repo worktree remove --force $W
 fi
-cd /repo && git apply /verif/seeded/$NAME/patch.diff || exit 2
+S=/var/tmp/sigpy-seedtest-$$
+rm -rf $S; git clone -q --shared /repo $S || exit 2
+git -C $S apply /verif/seeded/$NAME/patch.diff || { rm -rf $S; exit 2; }
 cd /verif
-for p in "$@"; do ./check $p 2>&1 | tail -3 | cut -c1-260; done
-git -C /repo checkout -- . ; git -C /repo status --short | head -2
-[ -d "$W" ] && git -C /repo worktree remove --force $W
+for p in "$@"; do SIGPY_REPO=$S ./check $p 2>&1 | tail -3 | cut -c1-260; done
+rm -rf $S
 exit 0
